@@ -116,6 +116,17 @@ def run(chk):
             for k in ("temperature models", "composition models", "grains models", "velocity models"):
                 s.pop(k, None)
         f["composition models"] = [{"model": "uniform", "compositions": [0]}]
+        kink = wi % 5 == 2
+        if kink:
+            # a flattening (or steepening) kink: above the surface, in the wedge over the kink, a point has feet on both
+            # segments and the nearer one must win whatever the sign of the distances
+            a1, a2 = rng.choice([(60.0, 20.0), (70.0, 35.0), (25.0, 65.0)])
+            th = float(round(rng.uniform(5e4, 1e5)))
+            f["segments"] = [{"length": float(round(rng.uniform(1e5, 2e5))), "thickness": [th], "angle": [a1]},
+                             {"length": float(round(rng.uniform(1.5e5, 2.5e5))), "thickness": [th], "angle": [a2]}]
+            if kind == "subducting plate" and rng.random() < 0.6:
+                for sg in f["segments"]:
+                    sg["top truncation"] = [-float(round(rng.uniform(3e4, 8e4)))]
         wj = {"version": "1.1", "features": [f]}
         P0, P1 = f["coordinates"]
         tx, ty = P1[0] - P0[0], P1[1] - P0[1]
@@ -146,6 +157,12 @@ def run(chk):
                 w_off = rng.uniform(-0.7, 0.7) * thick if kind == "fault" else rng.uniform(-0.3, 1.3) * thick
                 u, v = su + w_off * nrm(dip)[0], sv + w_off * nrm(dip)[1]
                 t = rng.uniform(0.02, 0.98)
+            elif kink and qi % 3 == 1:
+                # above the surface next to the kink, on either side of it
+                su, sv, dip = chain_point(segs, segs[0][0] + rng.uniform(-0.25, 0.35) * segs[1][0])
+                w_off = -rng.uniform(0.02, 0.6) * thick
+                u, v = su + w_off * nrm(dip)[0], sv + w_off * nrm(dip)[1]
+                t = rng.uniform(0.05, 0.95)
             else:
                 u = rng.uniform(-reach, reach)
                 v = rng.uniform(-1e4, reach)
